@@ -211,6 +211,44 @@ def check_composite(ctx, v):
                                 "weights and density: %r then %r" % (o, a, b), case)
     keep.verify("at the end of the sequence")
 
+    # materials DERIVED from Formula objects that a calculator has already used (k*m, m+m', copies, pickle round
+    # trips) are materials in their own right: a new calculator over them equals the direct calculation of THEIR sum
+    der = v.get("derive")
+    if der:
+        import copy
+        import pickle
+        mats2, comps2, how = [], [], []
+        for j, (m, c) in enumerate(zip(mats, comps)):
+            op = der[j % len(der)]
+            how.append(op[0])
+            if op[0] == "mul":
+                mats2.append(op[1] * m)
+                comps2.append(dict((k, op[1] * n) for k, n in c.items()))
+            elif op[0] == "add":
+                j2 = op[1] % len(mats)
+                mats2.append(m + mats[j2])
+                merged = dict(c)
+                for k, n in comps[j2].items():
+                    merged[k] = merged.get(k, 0.0) + n
+                comps2.append(merged)
+            else:
+                mats2.append({"copy": copy.copy, "deepcopy": copy.deepcopy,
+                              "pickle": lambda x: pickle.loads(pickle.dumps(x)), "same": lambda x: x}[op[0]](m))
+                comps2.append(c)
+        w2 = np.array([float(x) for x in w], dtype=float)
+        calc2 = nsf.neutron_composite_sld(mats2, wavelength=arg)
+        got2 = calc2(w2, density=rho)
+        ctx.count("derived-materials:" + "+".join(sorted(set(how))))
+        judge("second calculator over materials derived from the first one's (%s)" % ", ".join(how), mats2, comps2, got2,
+              w2, rho, arg, shape, lams, dict(case, phase="derived"))
+        # and the first calculator still answers as before
+        if not zero:
+            got3 = calc(np.array(w, dtype=weights.dtype), density=rho)
+            for o, a, b in zip(SLD, got, got3):
+                if not bool(np.all(np.asarray(a) == np.asarray(b))):
+                    raise Violation("c17:stateful", "%s of the first calculator changed after materials were derived from "
+                                    "its materials: %r then %r" % (o, a, b), case)
+
 
 def strat():
     ng.env()
@@ -242,6 +280,11 @@ def strat():
         "density": st.one_of(rho, rho, rho, rho, rho, rho, rho, rho, rho, rho, st.sampled_from([0, 0.0])),
         "wl": wl,
         "steps": st.lists(step, min_size=1, max_size=3),
+        "derive": st.one_of(st.none(), st.lists(st.one_of(
+            st.tuples(st.just("mul"), st.sampled_from([2, 3, 5, 0.5, 2.5, 10, 0.125])),
+            st.tuples(st.just("mul"), st.sampled_from([2, 3, 5, 0.5, 2.5, 10, 0.125])),
+            st.tuples(st.just("add"), st.integers(0, 5)),
+            st.tuples(st.sampled_from(["copy", "deepcopy", "pickle", "same"]))).map(list), min_size=1, max_size=4)),
     })
 
 
